@@ -83,7 +83,7 @@ fn eval_lib(_ctx: &Ctx, case: &LibCase) -> Verdict {
         ensure!(close(got.sum(), spec.sum(), 1e-12, scale), "mass changed: {} -> {}", spec.sum(), got.sum());
     }
     // every ordering
-    let orders: Vec<Vec<usize>> = if remove.len() <= 3 {
+    let orders: Vec<Vec<usize>> = if remove.len() <= 4 {
         permutations(remove)
     } else {
         let mut sorted = remove.clone();
@@ -431,9 +431,14 @@ pub fn check(ctx: &Ctx) -> Check {
     let parts: Vec<Box<dyn Part>> = vec![
         Box::new(EnumPart {
             name: "lib-exhaustive",
-            rule: "every shape with <=4 axes of length <=3 (thorough <=4) x every non-empty proper subset of axes x every order of naming them, hashed integer fill; oracle = naive nested-index sum, order independence, joint == one-at-a-time, mass, error cases; non-trivial = >=3 pairwise unequal axes or >=2 removed axes named unsorted; distinct by shape",
+            rule: "every shape with <=4 axes of length <=3 (thorough <=4) and every 5-axis shape of lengths 1..2 x every non-empty proper subset of axes x every order of naming them, hashed integer fill; oracle = naive nested-index sum, order independence, joint == one-at-a-time, mass, error cases; non-trivial = >=3 pairwise unequal axes or >=2 removed axes named unsorted; distinct by shape",
             exhaustive: true,
-            cases: Box::new(move |_| all_shapes(max_axes, 1, max_len).into_iter().map(|shape| ShapeCase { shape }).collect()),
+            cases: Box::new(move |_| {
+                let mut v: Vec<ShapeCase> = all_shapes(max_axes, 1, max_len).into_iter().map(|shape| ShapeCase { shape }).collect();
+                // five axes of lengths 1..2: four removed axes named in every order
+                v.extend(all_shapes(5, 1, 2).into_iter().filter(|s| s.len() == 5).map(|shape| ShapeCase { shape }));
+                v
+            }),
             eval: Box::new(eval_shape),
         }),
         Box::new(RandomPart {
